@@ -27,8 +27,10 @@ def ensure_slots():
 
 
 def slot_for(harness):
-    mods = harness.split("::")[:-2]  # drop verif_kani::<fn>
-    return os.path.join(GEN, "playback_" + "_".join(mods) + ".rs")
+    parts = harness.split("::")
+    k = parts.index("verif_kani") if "verif_kani" in parts else len(parts) - 2
+    mods, nested = parts[:k], parts[k + 1:-1]  # drop verif_kani and <fn>; nested harness modules have their own slot
+    return os.path.join(GEN, "playback_" + "_".join(mods) + ("__" + "_".join(nested) if nested else "") + ".rs")
 
 
 def concrete_playback(harness, replay_path, timeout=1500):
